@@ -18,6 +18,7 @@ import (
 	"net/http"
 	"net/http/httputil"
 	"net/url"
+	"slices"
 	"time"
 )
 
@@ -30,7 +31,8 @@ type HTTPProxyDialer struct {
 	ProxyConnectHeader http.Header
 	// Function to dynamically generate headers. Function signature is same as method used in http.Transport
 	// but behaviour is slightly different:
-	// - Headers are added to ones defined in ProxyConnectHeader or replaced
+	// - Headers are added to ones defined in ProxyConnectHeader or replaced,
+	//   unless ProxyConnectHeader already has all their values
 	GetProxyConnectHeader func(ctx context.Context, proxyURL *url.URL, target string) (http.Header, error)
 }
 
@@ -152,7 +154,14 @@ func (d *HTTPProxyDialer) DialContextR(ctx context.Context, network, addr string
 			return nil, nil, err
 		}
 
-		maps.Copy(req.Header, headers)
+		for k, vv := range headers {
+			// ProxyConnectHeader may already have been through the rules GetProxyConnectHeader applies
+			// (the header of a client's CONNECT): replacing the key would drop the client's own values.
+			if containsAll(req.Header[k], vv) {
+				continue
+			}
+			req.Header[k] = vv
+		}
 	}
 
 	if err := req.Write(pbw); err != nil {
@@ -201,4 +210,14 @@ type byteReader struct {
 
 func (r byteReader) Read(p []byte) (int, error) {
 	return r.r.Read(p[:1])
+}
+
+// containsAll reports whether every value of vv is in have.
+func containsAll(have, vv []string) bool {
+	for _, v := range vv {
+		if !slices.Contains(have, v) {
+			return false
+		}
+	}
+	return true
 }
